@@ -287,7 +287,8 @@ namespace fastscapelib
             {
                 using neighbors_type = typename graph_impl_type::grid_type::neighbors_type;
 
-                double slope;
+                double slope, slope_max;
+                double drop, drop_max;
                 double weight, weights_sum;
                 neighbors_type neighbors;
                 size_type nrec;
@@ -315,20 +316,21 @@ namespace fastscapelib
 
                     nrec = 0;
                     weights_sum = 0;
+                    drop_max = 0;
 
                     for (auto n : grid.neighbors(i, neighbors))
                     {
                         if (!graph_impl.is_masked(n.idx)
                             && elevation.flat(i) > elevation.flat(n.idx))
                         {
-                            slope = (elevation.flat(i) - elevation.flat(n.idx)) / n.distance;
-
                             receivers(i, nrec) = n.idx;
                             dist2receivers(i, nrec) = n.distance;
 
-                            weight = std::pow(slope, this->m_op_ptr->m_slope_exp);
-                            weights_sum += weight;
-                            receivers_weight(i, nrec) = weight;
+                            // temporarily store the elevation drop (the weights
+                            // are computed below, once all receivers are known)
+                            drop = elevation.flat(i) - elevation.flat(n.idx);
+                            receivers_weight(i, nrec) = drop;
+                            drop_max = std::max(drop_max, drop);
 
                             // update donors (note: not thread safe if later parallelization)
                             donors(n.idx, donors_count(n.idx)++) = i;
@@ -347,6 +349,26 @@ namespace fastscapelib
                     }
 
                     receivers_count(i) = nrec;
+
+                    // compute the slopes relative to the largest elevation drop and
+                    // the weights relative to the steepest slope: the partition is
+                    // unchanged but neither the slopes, their powers nor the sum of
+                    // the weights can underflow or overflow (e.g., with the tiny
+                    // elevation increments set by the sink resolvers)
+                    slope_max = 0;
+                    for (size_type j = 0; j < nrec; j++)
+                    {
+                        slope = (receivers_weight(i, j) / drop_max) / dist2receivers(i, j);
+                        receivers_weight(i, j) = slope;
+                        slope_max = std::max(slope_max, slope);
+                    }
+                    for (size_type j = 0; j < nrec; j++)
+                    {
+                        weight = std::pow(receivers_weight(i, j) / slope_max,
+                                          this->m_op_ptr->m_slope_exp);
+                        weights_sum += weight;
+                        receivers_weight(i, j) = weight;
+                    }
 
                     // normalize weights
                     for (size_type j = 0; j < nrec; j++)
